@@ -16,6 +16,7 @@ ALLOWED_AXIOMS = ()
 
 
 def build(ctx):
+    ddcommon.build_dd_debug(ctx)
     return ddcommon.build_dd(ctx)
 
 
@@ -78,9 +79,11 @@ def gen_cases(ctx):
 
 
 def run(ctx):
+    cases = gen_cases(ctx)
+    # every fourth case also on the debug-profile harness (debug assertions of level_swap etc.)
     ddcommon.run_dd(
-        ctx, ["C08"], gen_cases(ctx),
-        rule="per kind (bdd, bcdd, zbdd): for 3 variables every source order (2 in quick) x all 12 total and partial target orders with all 256 functions alive, each followed by re-derivation, optional gc and the way back; 4 variables with 48 sampled functions and sampled targets; 5..7 variables with random functions and orders; random histories mixing reorderings with operations and gc; set_var_order and set_var_order_seq, 1/2/4/8 workers. non-trivial = case with >= 3 ops",
+        ctx, ["C08"], cases, debug_cases=cases[::4] if ctx.tier != "thorough" else cases[::2],
+        rule="a quarter of the cases (half in thorough) and the corpus are run a second time on a debug-profile build of /repo (debug assertions, overflow checks); per kind (bdd, bcdd, zbdd): for 3 variables every source order (2 in quick) x all 12 total and partial target orders with all 256 functions alive, each followed by re-derivation, optional gc and the way back; 4 variables with 48 sampled functions and sampled targets; 5..7 variables with random functions and orders; random histories mixing reorderings with operations and gc; set_var_order and set_var_order_seq, 1/2/4/8 workers. non-trivial = case with >= 3 ops",
         allowed_axioms=ALLOWED_AXIOMS)
 
 
